@@ -86,6 +86,10 @@ func (fs *Filesystem) MkdirTemp(dir, pattern string) (string, error) {
 		if err != nil {
 			return "", err
 		}
+	} else if fs.base != "" {
+		// An empty dir means "the default temporary directory". For a rooted
+		// filesystem that must not be the host's: use the root itself.
+		dir = fs.base
 	}
 	result, err := os.MkdirTemp(dir, pattern)
 	if err != nil {
